@@ -58,6 +58,10 @@ VARIANTS = [
     {"__prelude__": True},
     {"__prelude__": True, "n_pool": 2},
     {"likelihood_chunksize": 3},
+    # verbose logging, with and without a pool
+    {"__log__": "DEBUG"},
+    {"__log__": "DEBUG", "n_pool": 2},
+    {"__log__": "INFO", "pool": {"__pool__": 2}, "likelihood_chunksize": 7},
 ]
 
 
@@ -104,10 +108,18 @@ def members(g):
                # processes do), fixed per member so that the run is a
                # function of VERIF_SEED
                "env": {"PYTHONHASHSEED": 0 if i == 0 else 101 * i + 1}}
+        if g["base"].get("direct"):
+            # the sampler class is constructed and run without FlowSampler
+            job["direct"] = True
+        if v.get("__log__"):
+            # the logging level is not part of the configuration of a run
+            job["kwargs"] = {k: w for k, w in job["kwargs"].items()
+                             if k != "__log__"}
+            job["log_level"] = v["__log__"]
         if v.get("__prelude__"):
             # not a keyword argument: the member process first performs an
             # unrelated run of the other sampler
-            job["kwargs"] = {k: w for k, w in kw.items()
+            job["kwargs"] = {k: w for k, w in job["kwargs"].items()
                              if k != "__prelude__"}
             job["prelude"] = True
         out.append(job)
